@@ -696,7 +696,13 @@ def shard_nt_exh(ctx: Ctx) -> None:
                         ctx.violation("mod-inv-wrong", f"{fn.__name__}({a},{m}) -> {o[1]!r}", {"a": a, "m": m})
                 elif o[0] == "ok" or not isinstance(o[1], BTClibValueError):
                     ctx.violation("mod-inv-no-inverse-answered", f"{fn.__name__}({a},{m}) -> {o[1]!r} but gcd != 1", {"a": a, "m": m})
+            # the extended Euclid itself: Bezout's identity, for either order of the operands
+            for u, v in ((a, m), (m, a)):
+                o = outcome(nt.xgcd_var, u, v)
+                if o[0] == "raise" or len(o[1]) != 3 or u * o[1][1] + v * o[1][2] != o[1][0] or abs(o[1][0]) != math.gcd(u, v):
+                    ctx.violation("xgcd-wrong", f"xgcd_var({u},{v}) -> {o[1]!r}", {"a": u, "b": v})
         ctx.bulk("nt:mod_inv", 2 * (3 * m + 1))
+        ctx.bulk("nt:xgcd", 2 * (3 * m + 1))
         # batches: all-invertible, with repeats; one with a non-invertible member must be refused
         units = [a for a in range(1, m) if math.gcd(a, m) == 1] or [1]
         batch = [ctx.rng.choice(units) + ctx.rng.choice([0, m, -m]) for _ in range(ctx.rng.randrange(0, 7))]
